@@ -7,6 +7,7 @@ package c11
 
 import (
 	"context"
+	"flag"
 	"fmt"
 	"math/bits"
 	"os"
@@ -27,6 +28,22 @@ var run *evid.Run
 func TestMain(m *testing.M) {
 	run = evid.NewRun("C11", "model_checking")
 	run.Check = "c11"
+	if replayFile != "" {
+		flag.Parse()
+		_ = flag.Set("test.run", "^TestReplay$")
+		code := m.Run()
+		fmt.Print(replayOut)
+		switch {
+		case code != 0:
+			fmt.Println("INFRA: replay did not run to completion (not a verdict)")
+			os.Exit(2)
+		case replayFailed:
+			fmt.Printf("VIOLATION property=C11 replay=%s\n", replayFile)
+			os.Exit(1)
+		}
+		fmt.Println("replay: property holds on this case")
+		os.Exit(0)
+	}
 	code := m.Run()
 	if code != 0 {
 		fmt.Println("INFRA: go test reported failure (not a verdict)")
